@@ -308,6 +308,58 @@ class Function:
             st.extend(self.succs(x))
         return False
 
+    def _polarity(self, cond, field):
+        """+1 if cond is true exactly when <x>-><field> is non-zero, -1 if exactly when it is zero, None if
+        the expression is not such a simple test."""
+        n = self.nodes[cond]
+        k = n["k"]
+        if k in ("ParenExpr", "ImplicitCastExpr", "CStyleCastExpr", "ConstantExpr"):
+            return self._polarity(n["c"][0], field)
+        if k == "MemberExpr":
+            return 1 if n["field"] == field else None
+        if k == "UnaryOperator" and n.get("op") == "!":
+            p = self._polarity(n["c"][0], field)
+            return -p if p else None
+        if k == "BinaryOperator" and n.get("op") in ("==", "!="):
+            a, b = n["c"]
+            for x, y in ((a, b), (b, a)):
+                v = self.val(y)
+                p = self._polarity(x, field)
+                if p and v == 0:
+                    return p if n["op"] == "!=" else -p
+        return None
+
+    def guard_truth(self, node, field):
+        """Under which truth value of <x>-><field> is `node` executed?  True / False when a two-way branch
+        whose condition is a plain test of that field has exactly one successor dominating the node;
+        'both' if no such branch controls it; None if a controlling test is too complex to classify."""
+        pos = self.where_up(node)
+        if pos is None:
+            return None
+        dom = self.dominators().get(pos[0], set()) | {pos[0]}
+        res = "both"
+        for b, blk in self.blocks.items():
+            t = blk.get("term")
+            if t is None or self.nodes[t]["k"] not in ("IfStmt", "ConditionalOperator") or len(blk["succs"]) != 2:
+                continue
+            cond = self.nodes[t].get("cond", self.nodes[t]["c"][0] if self.nodes[t]["c"] else -1)
+            if cond < 0 or not any(self.nodes[j]["k"] == "MemberExpr" and self.nodes[j]["field"] == field
+                                   for j in self.descendants(cond, include_self=True)):
+                continue
+            st, sf = blk["succs"]
+            in_t = st is not None and st in dom
+            in_f = sf is not None and sf in dom
+            if in_t == in_f:
+                continue
+            pol = self._polarity(cond, field)
+            if pol is None:
+                return None
+            val = (pol > 0) if in_t else (pol < 0)
+            if res != "both" and res != val:
+                return None
+            res = val
+        return res
+
     def returns(self):
         """ReturnStmt node ids that are reachable."""
         out = []
